@@ -461,6 +461,22 @@ func lkScripts(cat *Catalogue) map[string]func(c *lkClient, w *lkWorld, rng *ran
 			c.do("POST", "/v2/"+c.repo+"/blobs/uploads/?mount="+dig("b3")+"&from=lk/other", nil, nil)
 			c.do("DELETE", "/v2/"+c.repo+"/blobs/"+dig("b3"), nil, nil)
 		},
+		"mountmiss": func(c *lkClient, w *lkWorld, rng *rand.Rand) {
+			// a mount whose source repository lacks the blob (falls back to a session), then a collection of the source
+			c.do("POST", "/v2/lk/other/blobs/uploads/?digest="+dig("b3"), nil, cat.C["b3"].Bytes)
+			c.do("POST", "/v2/"+c.repo+"/blobs/uploads/?mount=sha256:"+strings.Repeat("1", 64)+"&from=lk/other", nil, nil)
+			if atomic.LoadInt64(c.hung) > 0 {
+				return
+			}
+			done := make(chan struct{})
+			go func() { _ = c.srv.S.VerifGC("lk/other"); close(done) }()
+			select {
+			case <-done:
+			case <-time.After(watchdog):
+				atomic.AddInt64(c.hung, 1)
+			}
+			atomic.AddInt64(c.n, 1)
+		},
 		"gc": func(c *lkClient, w *lkWorld, rng *rand.Rand) {
 			done := make(chan struct{})
 			if atomic.LoadInt64(c.hung) > 0 {
@@ -477,7 +493,7 @@ func lkScripts(cat *Catalogue) map[string]func(c *lkClient, w *lkWorld, rng *ran
 	}
 }
 
-var lkOrder = []string{"manifest", "upload", "abandon", "abandon", "patchold", "abandon", "patchold", "finishold", "cancel", "mount", "gc", "upload", "patchold"}
+var lkOrder = []string{"manifest", "upload", "abandon", "abandon", "patchold", "abandon", "patchold", "finishold", "cancel", "mount", "mountmiss", "gc", "upload", "patchold"}
 
 func cmdLocks(args []string) {
 	fs := flag.NewFlagSet("locks", flag.ExitOnError)
@@ -580,7 +596,7 @@ func cmdLocks(args []string) {
 				go func(gi int) {
 					defer wg.Done()
 					rng := rand.New(rand.NewSource(*seed*977 + int64(ci*100+gi)))
-					names := []string{"abandon", "patchold", "upload", "cancel", "finishold", "manifest", "mount", "gc", "patchold", "abandon"}
+					names := []string{"abandon", "patchold", "upload", "cancel", "finishold", "manifest", "mount", "gc", "patchold", "abandon", "mountmiss"}
 					for k := 0; time.Now().Before(stop) && atomic.LoadInt64(&nhung) == before; k++ {
 						name := names[(gi+k)%len(names)]
 						if gi < 4 { // the first goroutines concentrate on sessions
